@@ -1,6 +1,7 @@
 """C19 - stored channel state is never lost or torn by the storage layer (structural part)."""
 from engine import *
 import provenance
+import guards
 import mutations
 
 FS = 'lightning_persister::fs_store::common::FilesystemStoreInner::'
@@ -428,3 +429,47 @@ RULES = [
 	('19.y', 'no reviewed function gained a swallowed error (the Result of a fallible in-crate call dropped; rules/provenance.py)', lambda F: provenance.dr_for_property(F, 'C19', '19.y')),
 ]
 RULES.append(('19.M', 'collection mutations: every reviewed (function, stored collection, mutator class: add / remove / filter / empty / swap / order) triple is still present - an entry that is no longer removed, inserted or drained on one path (rules/mutations.py)', lambda F: mutations.for_property(F, 'C19', '19.M')))
+RULES.append(('19.G', 'guard census: no reviewed call of a workspace function and no reviewed mutation of a stored collection gained a controlling branch condition (an added `&& cond`, early return / continue, more specific match arm in front of an act); counts per call site, name free (rules/guards.py)', lambda F: guards.for_property(F, 'C19', '19.G')))
+
+def r19k(F, rid='19.k'):
+	"""the storage key of a monitor is stable for the monitor's whole life: ChannelMonitor::persistence_key (the key under which ChainMonitor hands the
+	monitor and its updates to the persister) is computed only from fields that are never written after construction - a key derived from state that
+	a splice, a commitment update or a reorg changes splits one channel's records over two namespaces (the full monitor under the old key, later
+	updates under the new one), and a restart recovers a stale monitor"""
+	fn = 'lightning::chain::channelmonitor::ChannelMonitor::persistence_key'
+	try:
+		fns = reachable_fns(F, [fn], depth=2)
+	except AnchorMissing as e:
+		return [Result(rid, False, 'anchor:persistence_key', str(e))]
+	CTOR = ('new', 'read', 'from_impl', 'default', 'clone')
+	out = []
+	read = {}
+	for fld, recs in F.fieldacc.items():
+		owner = fld.rsplit('.', 1)[0]
+		if not owner.startswith('lightning::chain::channelmonitor::') and not owner.startswith('lightning::ln::chan_utils::'):
+			continue
+		for f, k, line in recs:
+			if root_fn(f) in fns and k.partition(':')[0] in ('r', 'ri', 'br', 'bri', 'bf', 'bfi'):
+				read.setdefault(fld, (f, line))
+	n = 0
+	for fld, (f, line) in sorted(read.items()):
+		muts = []
+		for g, k, ln in F.fieldacc[fld]:
+			kk, _, callee = k.partition(':')
+			if kk not in ('w', 'wi', 'bm', 'bmi'):
+				continue
+			tail = root_fn(g).rsplit('::', 1)[-1]
+			if tail in CTOR or tail.startswith(('new_', 'read_', 'from_')) or F.impl_kind.get(root_fn(g)) == 'derived' or 'Readable' in g or 'ReadableArgs' in g:
+				continue
+			if callee.rsplit('::', 1)[-1] in ('lock', 'clone', 'as_ref', 'hash', 'write', 'eq', 'serialized_length'):
+				continue
+			muts.append((tail, ln))
+		n += 1
+		ok = not muts
+		short = fld.split('::')[-1]
+		out.append(Result(rid, ok, ('ok:' if ok else 'unstable:') + 'key-field@' + short, 'persistence_key reads %s, which is never written after construction' % short if ok else 'persistence_key (through %s) reads %s, which is written after construction by %s: the storage key of a live monitor can change, and its records are then split over two keys' % (root_fn(f).rsplit('::', 1)[-1], short, sorted({m[0] for m in muts})[:4]), 1 + len(muts), where=F.where(f, line)))
+	if n < 2:
+		out.append(Result(rid, False, 'floor:key-fields', 'persistence_key reads only %d monitor field(s) (expected the first negotiated funding outpoint and the channel id)' % n, n))
+	return out
+
+RULES.append(('19.k', 'the storage key of a monitor (ChannelMonitor::persistence_key) is computed only from fields that are never written after construction', r19k))
